@@ -10,6 +10,8 @@ import Hw.Topo.RestrictTyping
 import Hw.Topo.RestrictSide
 import Hw.Topo.RestrictWF
 import Hw.Topo.RestrictSurvive
+import Hw.Topo.RestrictMerge
+import Hw.Topo.RenderTop
 import Hw.Attr.MemAttrsState
 namespace Hw.Props.C08
 open Hw.Topo Hw.Topo.Restrict Hw.Gen.Restrict
@@ -559,6 +561,130 @@ theorem C08_pu_survive_bynodeset (t : Topo) (p : Params) (hb : p.byNode = true) 
       cnt ident (ident a) (objsT t'.tree) :=
   pu_survive_core t p hb t' hc hty a
 
+/-! ### A8: level merging and the PUs, the PU leaves, the root (through the level-wide guards of the C code) -/
+
+/-- (3) **hwloc_filter_levels_keep_structure never removes a PU, keeps PUs leaves, never replaces the root and keeps gp_index
+    distinct**: for every typed tree with distinct gp_index, under every filter table that does not put KEEP_STRUCTURE on the PU
+    type and on the root's type (hwloc_topology_set_type_filter refuses anything but KEEP_ALL for PU, NUMA node and Machine).
+    Proved through the level loop: hwloc_compare_levels_structure's pairing (same parent/child, arity 1, no memory children above
+    the PU level) is turned into a node-wise guard for every merged node (`pair_of_same`, using that levels are homogeneous and
+    gp_index is injective), and the merge decision only drops KEEP_STRUCTURE types or a Die level below Packages. -/
+theorem C08_merge_keeps_pus (filters : List Nat) (hPU : filterOf filters tPU ≠ filterKeepStructure) (t : Tree)
+    (hRoot : filterOf filters t.obj.type ≠ filterKeepStructure) (hn : ((objsT t).map (·.gp)).Nodup) (ht : typedT t = true)
+    (hr : isNormal t.obj.type = true) (hl : puLeafT t = true) :
+    puLeafT (keepStructure filters t) = true ∧ (keepStructure filters t).obj = t.obj ∧
+    ((objsT (keepStructure filters t)).map (·.gp)).Nodup ∧
+    (∀ x : RObj, x.type = tPU → (x ∈ objsT (keepStructure filters t) ↔ x ∈ objsT t)) :=
+  ⟨(keepStructure_pu filters hPU t hRoot hn ht hr hl).1, (keepStructure_pu filters hPU t hRoot hn ht hr hl).2.1,
+   (keepStructure_pu filters hPU t hRoot hn ht hr hl).2.2.1, fun x hx => keepStructure_pu_mem filters hPU t hRoot hn ht hr hl x hx⟩
+
+/-- (3) **PUs after a successful restrict by cpuset S, WHOLE call (level merging included)**: every PU of the result still has
+    cpuset = complete cpuset = {os_index} with os_index ∈ S, and the PUs of the result are EXACTLY the previous PUs whose os_index is
+    in S.  Hypotheses: consequences of WF (C08_wf_implies_okT) and `mergeSafe` (distinct gp_index = C01 gp-index-unique, no
+    KEEP_STRUCTURE on PU / root type; evaluated by the driver on every WF BEFORE dump, preserved by every call: C08_restrict_leaf_root) -/
+theorem C08_pus_exact_whole (t : Topo) (s : CSet) (flags : Nat) (p : Params) (hp : plan t s flags = some p) (hb : p.byNode = false)
+    (hret : (restrict t s flags).2 = .ok) (hok : okT t.tree = true) (hty : typedT t.tree = true)
+    (hr : isNormal t.tree.obj.type = true) (hleaf : puLeafT t.tree = true) (hsets : puSetsT t.tree = true) (hs : mergeSafe t) :
+    (∀ x ∈ objsT (restrict t s flags).1.tree, x.type = tPU → x.cpuset = osBit x ∧ x.ccpuset = osBit x ∧ s.mem x.osidx.toNat = true) ∧
+    (∀ a : RObj, a.type = tPU → cnt ident (ident a) (objsT (restrict t s flags).1.tree) =
+        if s.mem a.osidx.toNat = true then cnt ident (ident a) (objsT t.tree) else 0) :=
+  pus_exact_whole t s flags p hp hb hret hok hty hr hleaf hsets hs
+
+/-- (3) … and the BYNODESET mirror for PUs, whole call: a PU disappears only if REMOVE_MEMLESS is given and its nodeset is empty
+    afterwards -/
+theorem C08_pu_survive_bynodeset_whole (t : Topo) (s : CSet) (flags : Nat) (p : Params) (hp : plan t s flags = some p)
+    (hb : p.byNode = true) (hret : (restrict t s flags).2 = .ok) (hty : typedT t.tree = true) (hr : isNormal t.tree.obj.type = true)
+    (hleaf : puLeafT t.tree = true) (hs : mergeSafe t) (a : RObj) (ha : a.type = tPU) :
+    cnt ident (ident a) ((objsT t.tree).filter (fun o => o.type == tPU && !(p.rmExempt && (shrinkG p o).nodeset == 0))) ≤
+      cnt ident (ident a) (objsT (restrict t s flags).1.tree) :=
+  pu_survive_whole t s flags p hp hb hret hty hr hleaf hs a ha
+
+/-- (1)+(4) **the whole call keeps "PUs are leaves", the identity of the root object and `mergeSafe`** — so they hold along any
+    history (C08_repeat_leaf_root) -/
+theorem C08_restrict_leaf_root (t : Topo) (s : CSet) (flags : Nat) (hty : typedT t.tree = true) (hr : isNormal t.tree.obj.type = true)
+    (hl : puLeafT t.tree = true) (hs : mergeSafe t) :
+    puLeafT (restrict t s flags).1.tree = true ∧ ident (restrict t s flags).1.tree.obj = ident t.tree.obj ∧
+    mergeSafe (restrict t s flags).1 :=
+  restrict_leaf_root t s flags hty hr hl hs
+
+theorem C08_repeat_leaf_root (t : Topo) (calls : List (CSet × Nat)) (hty : typedT t.tree = true) (hr : isNormal t.tree.obj.type = true)
+    (hl : puLeafT t.tree = true) (hs : mergeSafe t) :
+    typedT (runCalls t calls).tree = true ∧ isNormal (runCalls t calls).tree.obj.type = true ∧
+    puLeafT (runCalls t calls).tree = true ∧ (runCalls t calls).tree.obj.type = t.tree.obj.type ∧ mergeSafe (runCalls t calls) := by
+  induction calls generalizing t with
+  | nil => exact ⟨hty, hr, hl, rfl, hs⟩
+  | cons c cs ih =>
+    unfold runCalls
+    rw [List.foldl_cons]
+    have h1 := typed_restrict t c.1 c.2 hty hr
+    have h2 := restrict_leaf_root t c.1 c.2 hty hr hl hs
+    have := ih _ h1.1 h1.2 h2.1 h2.2.2
+    refine ⟨this.1, this.2.1, this.2.2.1, ?_, this.2.2.2.2⟩
+    have e : (restrict t c.1 c.2).1.tree.obj.type = t.tree.obj.type := by
+      have := congrArg RObj.type h2.2.1; exact this
+    exact this.2.2.2.1.trans e
+
+/-! ### A8: more WF clauses of the result -/
+
+/-- (4) root-is-machine and numa-exists for the rendering of ANY tree with a Machine root resp. containing a NUMA node -/
+theorem C08_render_top (t : Tree) (h : Hdr) (ex : RObj → Extra) :
+    (t.obj.type = tMACHINE → topClause "root-is-machine" (render t h ex) (mkAux (render t h ex)) = true) ∧
+    ((∃ x ∈ objsT t, x.type = tNUMA) → topClause "numa-exists" (render t h ex) (mkAux (render t h ex)) = true) :=
+  ⟨fun hm => render_root_is_machine t hm h ex, fun hn => render_numa_exists t hn h ex⟩
+
+/-- (4) **C08_restrict_wf_partial**: for an input whose tree is typed, has PUs as leaves, a Machine root and is `mergeSafe` (all
+    consequences of WF except gp-distinctness of the TREE, which the driver evaluates; see C08_wf_implies_okT), the topology
+    after ANY restrict call — with NO hypothesis on the result — satisfies, besides the 7 link clauses of C08_restrict_links and
+    the 9 level clauses of C08_restrict_levels: no-children-where-forbidden (every object), root-is-machine and level0-is-root.
+    Named _partial because the full `WF (afterDump …)` is not reached: still judged by wfCheck on the real AFTER dump are
+    children-counts, levels-cover-objects, normal-level-types, type-depth-inverse, pu-level-deepest, machine-only-at-root,
+    numa-exists (reduced to the survival of one NUMA node: C08_restrict_numa_exists) and the set / memory / attribute clauses
+    other than the proved set statements (SetsOK, PU / NUMA singletons, exactness). -/
+theorem C08_restrict_wf_partial (t : Topo) (flagsT : Nat) (s : CSet) (flags : Nat) (ex : RObj → Extra)
+    (ht : typedT t.tree = true) (hm : t.tree.obj.type = tMACHINE) (hl : puLeafT t.tree = true) (hs : mergeSafe t) :
+    (∀ o ∈ (afterDump t flagsT s flags ex).objs,
+      objClause "no-children-where-forbidden" (afterDump t flagsT s flags ex) (mkAux (afterDump t flagsT s flags ex)) o = true) ∧
+    topClause "root-is-machine" (afterDump t flagsT s flags ex) (mkAux (afterDump t flagsT s flags ex)) = true ∧
+    topClause "level0-is-root" (afterDump t flagsT s flags ex) (mkAux (afterDump t flagsT s flags ex)) = true := by
+  have hr : isNormal t.tree.obj.type = true := by rw [hm]; decide
+  have h1 := typed_restrict t s flags ht hr
+  have h2 := restrict_leaf_root t s flags ht hr hl hs
+  have hm' : (restrict t s flags).1.tree.obj.type = tMACHINE := by
+    have := congrArg RObj.type h2.2.1; exact this.trans hm
+  exact ⟨fun o ho => C08_render_no_children _ h1.1 h2.1 _ ex o ho, render_root_is_machine _ hm' _ ex,
+    render_level0_is_root _ hm' _ ex⟩
+
+/-- (4) numa-exists after a successful restrict, reduced to one protected NUMA node of the input: by cpuset a NUMA node that is
+    not (REMOVE_CPULESS and CPU-less afterwards) — without REMOVE_CPULESS: any NUMA node —, by nodeset a NUMA node whose os_index
+    is in S (such a node exists because the call was not refused; that step needs the nodeset-decomposition clauses and is not proved) -/
+theorem C08_restrict_numa_exists (t : Topo) (flagsT : Nat) (s : CSet) (flags : Nat) (ex : RObj → Extra) (p : Params)
+    (hp : plan t s flags = some p) (hret : (restrict t s flags).2 = .ok) (hok : okT t.tree = true) (hty : typedT t.tree = true)
+    (hr : isNormal t.tree.obj.type = true) (hsets : numaSetsT t.tree = true)
+    (hex : ∃ x ∈ objsT t.tree, x.type = tNUMA ∧
+      (if p.byNode = true then s.mem x.osidx.toNat = true else (p.rmExempt && (shrinkG p x).cpuset == 0) = false)) :
+    topClause "numa-exists" (afterDump t flagsT s flags ex) (mkAux (afterDump t flagsT s flags ex)) = true := by
+  apply render_numa_exists
+  obtain ⟨x, hx, hxt, hcond⟩ := hex
+  have hfind : 0 < cnt ident (ident x) (objsT (restrict t s flags).1.tree) := by
+    cases hb : p.byNode with
+    | true =>
+      rw [hb] at hcond
+      simp only [if_true] at hcond
+      rw [(numas_exact_whole t s flags p hp hb hret hok hty hr hsets).2 x hxt, if_pos hcond]
+      exact (cnt_pos_iff ident (ident x) _).2 ⟨x, hx, rfl⟩
+    | false =>
+      rw [hb] at hcond
+      simp only [Bool.false_eq_true, if_false] at hcond
+      refine Nat.lt_of_lt_of_le ?_ (numa_survive_whole t s flags p hp hb hret hty hr x hxt)
+      refine (cnt_pos_iff ident (ident x) _).2 ⟨x, ?_, rfl⟩
+      rw [List.mem_filter]
+      refine ⟨hx, ?_⟩
+      unfold protNUMA
+      rw [hxt, hcond]
+      rfl
+  obtain ⟨y, hy, e⟩ := (cnt_pos_iff ident (ident x) _).1 hfind
+  exact ⟨y, hy, by have := congrArg RObj.type e; exact this.trans hxt⟩
+
 /-! ### non-vacuity and the reorder-without-removal case -/
 
 /-- Machine [Core{PU2} (complete {0,2}), Core{PU1} (complete {1,3})] + one NUMA node; PUs 0 and 3 are offline -/
@@ -604,6 +730,13 @@ example : (plan demoMerge ⟨1, false⟩ (flagByNodeset ||| flagRemoveMemless)).
     okT demoMerge.tree = true ∧ typedT demoMerge.tree = true ∧ isNormal demoMerge.tree.obj.type = true ∧
     numaSetsT demoMerge.tree = true ∧
     ((objsT (restrict demoMerge ⟨1, false⟩ (flagByNodeset ||| flagRemoveMemless)).1.tree).filter (fun o => o.type == tNUMA)).map (·.osidx) = [0] := by
+  decide +kernel
+
+/-- non-vacuity of the `mergeSafe` theorems: demo and demoMerge are mergeSafe; on demoMerge the call merges the Package level away
+    (C08_merge_keeps_pus at work: PU 0 survives under the L2 cache that replaced Package 0) -/
+example : mergeSafe demo ∧ mergeSafe demoMerge ∧ puLeafT demoMerge.tree = true ∧ demoMerge.tree.obj.type = tMACHINE := by decide +kernel
+example : ((objsT (restrict demoMerge ⟨1, false⟩ (flagByNodeset ||| flagRemoveMemless)).1.tree).filter (fun o => o.type == tPU)).map (·.osidx) = [0] ∧
+    (objsT (restrict demoMerge ⟨1, false⟩ (flagByNodeset ||| flagRemoveMemless)).1.tree).length + 7 = (objsT demoMerge.tree).length := by
   decide +kernel
 
 end Hw.Props.C08
